@@ -277,6 +277,8 @@ static Bytes ep_encrypt(Endpoint &e, const Bytes &m, const Bytes &ad, Rng *chunk
         gk.alloc(e.key.size(), 0, true); gk.set(e.key); kp = gk.p;
         gn.alloc(16, 0, true); memcpy(gn.p, e.nonce, 16); np = gn.p;
     }
+    // a quarter of the one-shot packets (plain, SIV, ISAP, masked) are computed in place: output buffer = input buffer
+    if (fam_cls(e.fam) != INC && !is_cpp(e.fam) && !m.empty() && (m.size() * 3 + ad.size()) % 4 == 1) { memcpy(c.p, mp, m.size()); mp = c.p; }
     switch (fam_cls(e.fam)) {
     case ONE: case SIV:
         c_encrypt(fam_cls(e.fam), alg, c.p, &clen, mp, m.size(), ap, ad.size(), np, kp);
@@ -339,7 +341,8 @@ static int ep_decrypt(Endpoint &e, const Bytes &x, const Bytes &ad, Bytes &m_out
 {
     int alg = fam_alg(e.fam);
     size_t cap = x.size() >= 16 ? x.size() - 16 : 0;
-    GuardBuf m(cap, (unsigned)x.size() + 3, page, 0xA5);
+    bool oneshot_inplace = fam_cls(e.fam) != INC && !is_cpp(e.fam) && x.size() >= 16 && (x.size() * 3 + ad.size()) % 4 == 2;
+    GuardBuf m(oneshot_inplace ? x.size() : cap, (unsigned)x.size() + 3, page, 0xA5);
     size_t mlen = (size_t)-1;
     int r = 0;
     GuardBuf gx, ga, gk, gn;
@@ -350,6 +353,7 @@ static int ep_decrypt(Endpoint &e, const Bytes &x, const Bytes &ad, Bytes &m_out
         gk.alloc(e.key.size(), 0, true); gk.set(e.key); kp = gk.p;
         gn.alloc(16, 0, true); memcpy(gn.p, e.nonce, 16); np = gn.p;
     }
+    if (oneshot_inplace) { memcpy(m.p, xp, x.size()); xp = m.p; }
     switch (fam_cls(e.fam)) {
     case ONE:
         if (alg == A128) r = ascon128_aead_decrypt(m.p, &mlen, xp, x.size(), ap, ad.size(), np, kp);
